@@ -107,6 +107,24 @@ def body_strings(case, rec):
         raise Violation("strings-roundtrip-parse_rxns", f"{lines}")
 
 
+def body_strings_after_history(case, rec):
+    """The string round trip must also hold after other networks parsed from the same texts have been edited in
+    place (remove_species strips a species from stored sides): parsing must not hand out shared mutable state."""
+    from synkit.CRN.Hypergraph.conversion import hypergraph_to_rxn_strings, rxns_to_hypergraph
+
+    H = _build(case)
+    lines = hypergraph_to_rxn_strings(H, include_rule_suffix=True, include_edge_id=False, sort=True)
+    scratch = rxns_to_hypergraph(lines)
+    touched = False
+    for s in case.get("victims", []):
+        if s in scratch.species:
+            scratch.remove_species(s, prune_orphans=bool(case.get("prune", True)))
+            touched = True
+    body_strings(dict(case, with_ids=False, sort=True), rec)
+    rec.label("edited-a-parsed-twin" if touched else "no-edit")
+    rec.nontrivial = bool(touched)
+
+
 def body_species(case, rec):
     from synkit.CRN.Hypergraph.conversion import hypergraph_to_species_graph, species_graph_to_hypergraph
 
@@ -169,6 +187,13 @@ def strat_strings(tier):
     return _with_common(_net(True, tier), st.fixed_dictionaries(dict(with_ids=st.booleans(), sort=st.booleans())))
 
 
+def strat_strings_history(tier):
+    return _with_common(
+        _net(True, tier),
+        st.fixed_dictionaries(dict(victims=st.lists(st.sampled_from(crn_gen.SPECIES[:6]), min_size=1, max_size=2), prune=st.booleans())),
+    )
+
+
 def strat_species(tier):
     return _with_common(_net(False, tier), st.just({}))
 
@@ -191,6 +216,7 @@ def _enum(kind):
 SUBS = [
     Sub("bipartite", body_bipartite, strategy=strat_bipartite, examples={"quick": 8000, "thorough": 200000}, shards={"quick": 5, "thorough": 5}),
     Sub("strings", body_strings, strategy=strat_strings, examples={"quick": 8000, "thorough": 200000}, shards={"quick": 5, "thorough": 5}),
+    Sub("strings_after_history", body_strings_after_history, strategy=strat_strings_history, examples={"quick": 4000, "thorough": 60000}, shards={"quick": 3, "thorough": 6}),
     Sub("species_graph", body_species, strategy=strat_species, examples={"quick": 8000, "thorough": 200000}, shards={"quick": 5, "thorough": 5}),
     Sub("bipartite_small", body_bipartite, enum=_enum("bipartite"), exhaustive=True, shards={"quick": 1, "thorough": 16}),
     Sub("strings_small", body_strings, enum=_enum("strings"), exhaustive=True, shards={"quick": 1, "thorough": 16}),
